@@ -418,12 +418,18 @@ pub struct FaultyWriter {
     pub once: bool,
     /// a full sink that reports no error: `write` returns `Ok(0)` once the budget is exhausted
     pub zero: bool,
+    /// the kind of error a failing write reports (every kind but `Interrupted` is final for `write_all`)
+    pub write_kind: std::io::ErrorKind,
     pub calls: usize,
 }
 
 impl std::io::Write for FaultyWriter {
     fn write(&mut self, buf: &[u8]) -> std::io::Result<usize> {
         self.calls += 1;
+        // a serializer that keeps calling a sink that keeps refusing would never return: turn it into a panic
+        if self.calls > 100_000 + 64 * self.acc.len() {
+            panic!("runaway: the sink was called {} times", self.calls);
+        }
         if let Some(j) = self.int_every {
             if self.calls % j == 0 {
                 return Err(std::io::Error::new(std::io::ErrorKind::Interrupted, "interrupted"));
@@ -441,7 +447,7 @@ impl std::io::Write for FaultyWriter {
                 if self.once {
                     self.budget = None;
                 }
-                return Err(std::io::Error::new(std::io::ErrorKind::Other, "device full"));
+                return Err(std::io::Error::new(self.write_kind, "device full"));
             }
             n = n.min(b - self.acc.len());
         }
@@ -458,7 +464,7 @@ impl std::io::Write for FaultyWriter {
 }
 
 pub fn parse_wspec(spec: &str) -> FaultyWriter {
-    let mut w = FaultyWriter { acc: vec![], budget: None, cap: None, int_every: None, flush_fail: false, flush_kind: std::io::ErrorKind::Other, once: false, zero: false, calls: 0 };
+    let mut w = FaultyWriter { acc: vec![], budget: None, cap: None, int_every: None, flush_fail: false, flush_kind: std::io::ErrorKind::Other, once: false, zero: false, write_kind: std::io::ErrorKind::Other, calls: 0 };
     for kv in spec.split(',') {
         if let Some((k, v)) = kv.split_once('=') {
             match k {
@@ -471,6 +477,18 @@ pub fn parse_wspec(spec: &str) -> FaultyWriter {
                         "2" => std::io::ErrorKind::Interrupted,
                         "3" => std::io::ErrorKind::WouldBlock,
                         "4" => std::io::ErrorKind::TimedOut,
+                        _ => std::io::ErrorKind::Other,
+                    };
+                }
+                "wk" => {
+                    w.write_kind = match v {
+                        "3" => std::io::ErrorKind::WouldBlock,
+                        "4" => std::io::ErrorKind::TimedOut,
+                        "5" => std::io::ErrorKind::BrokenPipe,
+                        "6" => std::io::ErrorKind::WriteZero,
+                        "7" => std::io::ErrorKind::OutOfMemory,
+                        "8" => std::io::ErrorKind::UnexpectedEof,
+                        "9" => std::io::ErrorKind::ConnectionReset,
                         _ => std::io::ErrorKind::Other,
                     };
                 }
@@ -766,8 +784,14 @@ where
     T: Deserialize,
     for<'a> DeserType<'a, T>: Send + Sync,
 {
+    // `loader` may carry the mapping flags: `map:1`
+    let (loader, bits) = match loader.split_once(':') {
+        Some((l, f)) => (l, f.parse::<u32>().unwrap_or(0)),
+        None => (loader, 0),
+    };
     let path = tmp_path("fload");
     std::fs::write(&path, bytes).unwrap();
+    let _ = bits;
     let run = |p: &std::path::Path| -> Result<(), String> {
         let e = |e: anyhow::Error| match e.downcast_ref::<epserde::deser::Error>() {
             Some(d) => crate::err_string(d),
@@ -777,9 +801,9 @@ where
             "full" => T::load_full(p).map(|_| ()).map_err(e),
             "mem" => T::load_mem(p).map(|c| drop(c)).map_err(e),
             #[cfg(feature = "mmap")]
-            "mmap" => T::load_mmap(p, Flags::empty()).map(|c| drop(c)).map_err(e),
+            "mmap" => T::load_mmap(p, flags_of(bits)).map(|c| drop(c)).map_err(e),
             #[cfg(feature = "mmap")]
-            "map" => T::mmap(p, Flags::empty()).map(|c| drop(c)).map_err(e),
+            "map" => T::mmap(p, flags_of(bits)).map(|c| drop(c)).map_err(e),
             _ => Err("err badloader".into()),
         }
     };
